@@ -5,7 +5,7 @@ use crate::q::Q;
 use crate::refnet::{RLayer, RefNet};
 use crate::regions::Config;
 use crate::report::{catch, par_cases, CaseOut, Report, Tier, Violation};
-use crate::snap::{conform, snap, TreeSide};
+use crate::snap::{conform, conform_face, snap, TreeSide};
 use affinitree::distill::builder::{afftree_from_layers, Layer};
 use affinitree::linalg::affine::Polytope;
 use affinitree::pwl::afftree::AffTree;
@@ -404,14 +404,10 @@ pub fn check_net(net: &Net) -> CaseOut {
     let mut conf_err = None;
     let o = refine(net.n, &imp, &rf, &cfg, &mut out, &mut |face, _, _| {
         if mode == 0 || face.n_eq() == 0 {
-            match conform(&tree, &s, &face.w, mode == 0) {
-                Ok(true) => conf += 1,
-                Ok(false) => {}
-                Err(e) => {
-                    if mode == 0 {
-                        conf_err = Some(e)
-                    }
-                }
+            let (n, e) = if mode == 0 { conform_face(&tree, &s, face, true) } else { (conform(&tree, &s, &face.w, false).map(|b| b as u64).unwrap_or(0), None) };
+            conf += n;
+            if let Some(e) = e {
+                conf_err = Some(e)
             }
         }
     });
